@@ -116,7 +116,11 @@ theorem ladder_default : mxstepLadder 500000 10 500 = [500, 5000, 50000, 500000]
 /-- a user-given cap that is not a power-of-ten multiple is the last value tried. -/
 example : mxstepLadder 20000 10 500 = [500, 5000, 20000] := by decide
 
-/-- **the retry ladder, for every cap**: at least one attempt is made, the first one with the starting `mxstep`, and
+/-- (Tie to the code: the implementation keeps `steps_allowed` in a C `unsigned`; for caps up to `(2^32 − 1) / 10` the
+product `· 10` cannot wrap and the check compares the values the real loop tries with `mxstepLadder` for such caps.
+Larger caps are outside the modelled range — the 32-bit product wraps there, see DESIGN.md.)
+
+**the retry ladder, for every cap**: at least one attempt is made, the first one with the starting `mxstep`, and
 every value tried lies between the starting value and the cap (or is the starting value itself when the cap is below
 it) — no attempt ever exceeds the user's `max_step`. -/
 theorem ladder_bounds (maxStep : Nat) : ∀ (fuel cur : Nat),
